@@ -329,6 +329,33 @@ def scan_unordered_sources(loader: Any) -> List[Dict[str, Any]]:
                 res.append({"key": f"{rel}:enumeration#{n_enum}:sorted", "ok": ok, "line": node.lineno, "func": rel,
                             "desc": f"the result of .{node.func.attr}(...) is consumed through sorted(...)",
                             "detail": None if ok else f"line {node.lineno}: {ast.unparse(node)[:80]}"})
+                # the order has to be total: distinct paths never tie.  A ``key=`` may only project with injective
+                # operations (attribute access, as_posix, str, tuples); lower()/len()/slicing/... make ties, and a
+                # tie is broken by the order of the enumeration again (sorted() is stable)
+                q = par.get(id(node))
+                hops = 0
+                while q is not None and hops < 3 and not (
+                        isinstance(q, ast.Call) and isinstance(q.func, ast.Name) and q.func.id == "sorted"):
+                    q = par.get(id(q))
+                    hops += 1
+                if isinstance(q, ast.Call) and isinstance(q.func, ast.Name) and q.func.id == "sorted":
+                    keyarg = next((kw.value for kw in q.keywords if kw.arg == "key"), None)
+                    lossy = None
+                    if keyarg is not None:
+                        for sub in ast.walk(keyarg):
+                            if isinstance(sub, ast.Call):
+                                f = sub.func
+                                nm = f.attr if isinstance(f, ast.Attribute) else (f.id if isinstance(f, ast.Name) else "?")
+                                if nm not in ("as_posix", "str", "relative_to", "tuple", "resolve", "absolute"):
+                                    lossy = f"{nm}(...)"
+                            elif isinstance(sub, ast.Subscript) or isinstance(sub, ast.Attribute) and sub.attr in (
+                                    "name", "stem", "suffix", "parent"):
+                                lossy = ast.unparse(sub)[:40]
+                    res.append({"key": f"{rel}:enumeration#{n_enum}:total-order", "ok": lossy is None,
+                                "line": node.lineno, "func": rel,
+                                "desc": "the sort order over the enumerated paths is total (no key that lets distinct "
+                                        "paths tie)",
+                                "detail": None if lossy is None else f"line {q.lineno}: the key uses {lossy}"})
             sinks: List[ast.AST] = []
             if isinstance(node, ast.FormattedValue):
                 sinks.append(node.value)
